@@ -96,6 +96,8 @@ def run(idx, rep, tier):
     r4(idx, rep, pm)
     r5(idx, rep)
     r6(idx, rep)
+    from . import c06
+    c06.header_index_sequences(idx, rep, "R6")
 
 
 def _terminal(gsrc, name):
